@@ -92,14 +92,16 @@ def obs_ovr(pairs):
 
 
 def obs_cell(pairs):
-    consts, forms = {}, []
+    # the workbook also holds the truth values and the numbers 1 / 0 / 1.0 / 0.0 as constants, read by its first formula: constants of
+    # different kinds that happen to be equal in Python stay what they are, wherever else in the workbook (or the process) they occur
+    consts, forms = {(3, 0): True, (3, 1): False, (3, 2): 1, (3, 3): 0, (3, 4): 1.0, (3, 5): 0.0}, ['=AND(D1,D3>D4,D5>D6)&D2']
     for j, (a, b) in enumerate(pairs):
         if a['k'] != 'blank':
             consts[(0, j)] = py_value(a)
         if b['k'] != 'blank':
             consts[(1, j)] = py_value(b)
         forms += [f'=A{j + 1}{o}B{j + 1}' for _, o in OPS] + [f'=B{j + 1}{o}A{j + 1}' for _, o in OPS]
-    res = repo.Probe(forms, consts).eval()
+    res = repo.Probe(forms, consts).eval()[1:]
     return [six(res[12 * j:12 * j + 12]) for j in range(len(pairs))]
 
 
